@@ -14,6 +14,7 @@ import (
 //
 //	planGuard      = disjuncts of the `if … { return false }` in optimize.queryPartAllowsLimitPushdown
 //	tailGuard      = disjuncts of every `if … { return "", false }` of translate.limitPushdownTailSource, in source order
+//	transparentWhere = the conditions / definitions / returns of translate.shortestPathLimitPushdownTransparentWhere, in source order
 //	countFastGuard = disjuncts of every early `return CountStoreFastPathDecision{}, false` / `return "", false` condition of
 //	                 optimize.countStoreFastPathDecision and optimize.simpleCountProjectionArgument, in source order
 //
@@ -174,6 +175,11 @@ func c02GuardFacts(repo string, w *strings.Builder) error {
 	if err != nil {
 		return err
 	}
+	// the helper behind the LAST conjunct of tailGuard: which tail WHERE the LIMIT may be moved below
+	transparentWhere, err := funcFacts(tfset, tfiles, "shortestPathLimitPushdownTransparentWhere")
+	if err != nil {
+		return err
+	}
 	w.WriteString("/- GENERATED by tools/extract/goext (mode c02guard) from cypher/models/pgsql/{optimize/lowering_plan.go,translate/projection.go}. Do not edit. -/\n")
 	w.WriteString("namespace Dawgs.Generated.C02Guard\n\n")
 	fmt.Fprintf(w, "def planGuard : List String := %s\n\n", leanStrList(plan))
@@ -183,6 +189,7 @@ func c02GuardFacts(repo string, w *strings.Builder) error {
 	fmt.Fprintf(w, "def aggregateHelper : List String := %s\n\n", leanStrList(aggHelper))
 	fmt.Fprintf(w, "def depthBounds : List String := %s\n\n", leanStrList(depth))
 	fmt.Fprintf(w, "def aliasDeclaration : List String := %s\n\n", leanStrList(aliasDecl))
+	fmt.Fprintf(w, "def transparentWhere : List String := %s\n\n", leanStrList(transparentWhere))
 	w.WriteString("end Dawgs.Generated.C02Guard\n")
 	return nil
 }
